@@ -324,15 +324,15 @@ async fn sender_actor(flow: Arc<Mutex<FlowState>>, mut tx: base::Sender<Item>, o
     tx
 }
 
-async fn receiver_actor(flow: Arc<Mutex<FlowState>>, mut rx: base::Receiver<Item>, recv_cancel: bool) {
+async fn receiver_actor(flow: Arc<Mutex<FlowState>>, mut rx: base::Receiver<Item>, recv_cancel: bool, deep: bool) {
     loop {
         if kit::is_aborted() {
             break;
         }
-        let res = if recv_cancel && kit::coin(1, 10) {
+        let res = if deep || (recv_cancel && kit::coin(1, 10)) {
             // base::Receiver::recv keeps its state in the receiver: cancelling it must lose nothing.
             // (Also deep into a streamed item, when the queue to the deserialisation thread may be full.)
-            let k = if kit::coin(1, 3) { kit::draw_range(20, 400) } else { kit::draw_range(1, 4) };
+            let k = if deep || kit::coin(1, 3) { kit::draw_range(20, 400) } else { kit::draw_range(1, 4) };
             match kit::cancel_after(rx.recv(), k).await {
                 Some(r) => r,
                 None => {
@@ -383,10 +383,16 @@ async fn receiver_actor(flow: Arc<Mutex<FlowState>>, mut rx: base::Receiver<Item
 struct Opts {
     cancel: bool,
     cut: bool,
+    /// Long streamed items, tiny chunks, a steadily slow deserialisation thread and receive calls
+    /// that are abandoned deep inside an item (the queue to that thread is then full).
+    slow_deser: bool,
 }
 
 async fn run(opts: Opts) {
     kit::draw_sched_policy();
+    if opts.slow_deser {
+        kit::set_helper_gap(kit::pick(&[40u32, 120]));
+    }
     kit::set_port_space(if kit::coin(1, 2) { 0 } else { 256 });
     let mut cfg_a = mux::draw_cfg(CfgProfile::Tiny);
     let mut cfg_b = if kit::coin(1, 3) { cfg_a.clone() } else { mux::draw_cfg(CfgProfile::Tiny) };
@@ -394,6 +400,11 @@ async fn run(opts: Opts) {
         c.max_data_size = kit::pick(&[16usize, 33, 64, 256]);
         c.max_ports = c.max_ports.max(4);
         c.connection_timeout = None;
+        if opts.slow_deser {
+            c.chunk_size = kit::pick(&[4u32, 8, 16]);
+            c.max_data_size = kit::pick(&[16usize, 64]);
+            c.receive_buffer = c.receive_buffer.max(16);
+        }
     }
     let link_cfg = LinkCfg::draw();
     let pair = match mux::connect_rch::<Item, Item>("AB", cfg_a.clone(), cfg_b.clone(), link_cfg, MonitorMode::Full).await {
@@ -419,20 +430,28 @@ async fn run(opts: Opts) {
     }
     let cancel = opts.cancel && kit::coin(2, 3);
     for (fid, (mut tx, mut rx, cfg_tx, cfg_rx)) in halves.into_iter().enumerate() {
-        let tx_mis = kit::pick(&[remoc::rch::DEFAULT_MAX_ITEM_SIZE, 100, 300]);
-        let rx_mis = kit::pick(&[remoc::rch::DEFAULT_MAX_ITEM_SIZE, 100, 300]);
+        let (tx_mis, rx_mis) = if opts.slow_deser {
+            (remoc::rch::DEFAULT_MAX_ITEM_SIZE, remoc::rch::DEFAULT_MAX_ITEM_SIZE)
+        } else {
+            (kit::pick(&[remoc::rch::DEFAULT_MAX_ITEM_SIZE, 100, 300]), kit::pick(&[remoc::rch::DEFAULT_MAX_ITEM_SIZE, 100, 300]))
+        };
         tx.set_max_item_size(tx_mis);
         rx.set_max_item_size(rx_mis);
-        let n = kit::draw_range(1, 10);
+        let n = if opts.slow_deser { kit::draw_range(1, 3) } else { kit::draw_range(1, 10) };
         let mut ops = Vec::new();
         for i in 0..n {
-            let item = draw_item(
+            let item = if opts.slow_deser && kit::coin(2, 3) {
+                let id = fid as u32 * 1000 + i;
+                Item::Blob(id, mux::payload(77, id, kit::pick(&[300usize, 700, 1500])))
+            } else {
+                draw_item(
                 fid as u32 * 1000 + i,
                 cfg_tx.max_data_size,
                 cfg_rx.max_data_size,
                 cfg_rx.chunk_size as usize,
                 tx_mis.min(rx_mis),
-            );
+            )
+            };
             if cancel && kit::coin(1, 5) {
                 ops.push(Op::CancelSend(item, kit::draw_range(0, 12)));
             } else {
@@ -446,7 +465,7 @@ async fn run(opts: Opts) {
             "ops": ops.iter().map(|o| match o { Op::Send(i) => format!("Send({})", i.short()), Op::CancelSend(i, k) => format!("CancelSend({}, after {k} polls)", i.short()), Op::Pause(us) => format!("Pause({us}us)") }).collect::<Vec<_>>()}));
         kit::mix_plan(kit::hash_str(&format!("{plan:?}")));
         let flow = Arc::new(Mutex::new(FlowState { id: fid as u32, ..Default::default() }));
-        receivers.push(kit::spawn(receiver_actor(flow.clone(), rx, cancel)));
+        receivers.push(kit::spawn(receiver_actor(flow.clone(), rx, cancel, opts.slow_deser)));
         senders.push(kit::spawn(sender_actor(flow.clone(), tx, ops, rx_mis)));
         flows.push(flow);
     }
@@ -532,15 +551,19 @@ async fn run(opts: Opts) {
 }
 
 fn sc_mixed() -> ScenarioFuture {
-    Box::pin(run(Opts { cancel: true, cut: false }))
+    Box::pin(run(Opts { cancel: true, cut: false, slow_deser: false }))
 }
 
 fn sc_fault_free() -> ScenarioFuture {
-    Box::pin(run(Opts { cancel: false, cut: false }))
+    Box::pin(run(Opts { cancel: false, cut: false, slow_deser: false }))
+}
+
+fn sc_slow_deser() -> ScenarioFuture {
+    Box::pin(run(Opts { cancel: true, cut: false, slow_deser: true }))
 }
 
 fn sc_cut() -> ScenarioFuture {
-    Box::pin(run(Opts { cancel: true, cut: true }))
+    Box::pin(run(Opts { cancel: true, cut: true, slow_deser: false }))
 }
 
 pub fn checks() -> Vec<Check> {
@@ -552,6 +575,7 @@ pub fn checks() -> Vec<Check> {
             Scenario { name: "base-mixed", weight: 5, max_polls: 400_000, max_virtual_secs: 48 * 3600, run: sc_mixed },
             Scenario { name: "base-fault-free", weight: 2, max_polls: 400_000, max_virtual_secs: 48 * 3600, run: sc_fault_free },
             Scenario { name: "base-link-cut", weight: 2, max_polls: 400_000, max_virtual_secs: 48 * 3600, run: sc_cut },
+            Scenario { name: "base-slow-deserialiser", weight: 1, max_polls: 1_500_000, max_virtual_secs: 48 * 3600, run: sc_slow_deser },
         ],
         quick: (12_000, 50),
         thorough: (600_000, 600),
